@@ -76,6 +76,10 @@ func (t *TwoPhaseAction) GetRollbackMethodName() string {
 
 func (t *TwoPhaseAction) Prepare(ctx context.Context, params interface{}) (bool, error) {
 	values := []reflect.Value{reflect.ValueOf(ctx), reflect.ValueOf(params)}
+	if params == nil {
+		// reflect.ValueOf(nil) is the zero Value, which Call rejects
+		values[1] = reflect.Zero(t.prepareMethod.Type().In(1))
+	}
 	res := t.prepareMethod.Call(values)
 	var (
 		r0   = res[0].Interface()
